@@ -104,16 +104,18 @@ Theorem C04_failed_write_refuted :
 Proof. exact failed_write_phantom. Qed.
 Print Assumptions C04_failed_write_refuted.
 
-(* 5. What the hypothesis disp_ok excludes: when the dispatcher takes another arm than the one of the node's kind
-      (a reserved name tested before the label, a parent label without a block) the file node is deleted, the status
-      is CG_OK and the session still lists the sibling. *)
-Theorem C04_wrong_arm_refuted :
+(* 5. HISTORICAL (the defects repaired in /repo by e5d5bea and 627245e; C04_no_shadowed_arm and
+      C04_every_position_has_a_block below state that the current sources are free of them).  What the hypothesis
+      disp_ok excludes: when the dispatcher takes another arm than the one of the node's kind (a reserved name tested
+      before the label, a parent label without a block) the file node is deleted, the status is CG_OK and the session
+      still lists the sibling. *)
+Theorem C04_historical_wrong_arm_diverges :
   let r := run no_sort wrong_arm empty_parent [OWrite "UserDefinedData_t" "DataClass" 5; ODelete "DataClass"] in
   snd r = [0; 0] /\
   vlookup "DataClass" (view_session (fst r) "UserDefinedData_t") = Some 5 /\
   vlookup "DataClass" (view_file no_sort (fst r) "UserDefinedData_t") = None.
 Proof. exact shadowed_delete_diverges. Qed.
-Print Assumptions C04_wrong_arm_refuted.
+Print Assumptions C04_historical_wrong_arm_diverges.
 
 (* 6. The dispatcher of cg_delete_node, for ANY table: a node of a sound kind whose name is not reserved is removed
       from the array of its own kind; with a reserved name, either the (parent, kind, name) triple is listed by
@@ -160,6 +162,37 @@ Print Assumptions C04_addr_tails_consistent.
 Theorem C04_sorting_consistent : sorting_ok sort_calls sort_comparator sort_names_callers = true.
 Proof. vm_compute. reflexivity. Qed.
 Print Assumptions C04_sorting_consistent.
+
+(*    - positive facts about the CURRENT sources, each the repair of a defect this property found (notes/C04.md); a
+        change that re-introduces such a row breaks the obligation:
+        no node-context writer keeps the id of the node it creates out of the slot (a8c4c3e: cg_multifam_write), *)
+Theorem C04_no_stale_id_rows : bad_nrows ctx_writers = [].
+Proof. vm_compute. reflexivity. Qed.
+Print Assumptions C04_no_stale_id_rows.
+
+(*      every position the goto machinery reaches and that can hold children has a block in cg_delete_node (627245e:
+        ParticleIterativeData_t), and for every such position every candidate kind is shifted in its own array or refused, *)
+Theorem C04_every_position_has_a_block :
+  parents_without_block delete_table goto_table = [] /\
+  forallb (fun p => match unsound_kinds delete_table not_deletable goto_table p with [] => true | _ => false end)
+          (all_positions goto_table) = true.
+Proof. vm_compute. split; reflexivity. Qed.
+Print Assumptions C04_every_position_has_a_block.
+
+(*      no name-selected arm shadows the label arm of a sibling kind (e5d5bea: UserDefinedData_t, Family_t,
+        ConvergenceHistory_t, ReferenceState_t) ... *)
+Theorem C04_no_shadowed_arm : shadowed delete_table not_deletable goto_table = [].
+Proof. vm_compute. reflexivity. Qed.
+Print Assumptions C04_no_shadowed_arm.
+
+(*      ... hence, with the dispatcher the sources contain now, a sibling of a sound kind is removed from the array of
+        its own kind or refused WHATEVER its name (reserved words included). *)
+Theorem C04_dispatch_total_current_tables : forall pl nl nn,
+  In pl (all_positions goto_table) -> In nl (sound_kinds delete_table not_deletable goto_table pl) ->
+  disp_of delete_table not_deletable goto_table pl nl nn = DShift nl \/
+  disp_of delete_table not_deletable goto_table pl nl nn = DRefuse.
+Proof. exact (dispatch_total delete_table not_deletable goto_table C04_no_shadowed_arm). Qed.
+Print Assumptions C04_dispatch_total_current_tables.
 
 (* 8. Together: under ANY parent label, with the dispatcher cg_delete_node contains NOW, every history over the sound
       kinds of that parent and unreserved names keeps the three views in agreement. *)
